@@ -382,6 +382,42 @@ where
             }
         }
     }
+    // ---------------- evaluators that outlive the shapes they evaluated:
+    // small shapes binding X, Y, Z to different input slots are built,
+    // evaluated through the long-lived shape-level tracing evaluators and
+    // dropped (with their tapes) before the next one is built, so that the
+    // allocator hands the freed blocks (variable maps included) back
+    {
+        let mut s_ie = Shape::<F>::new_interval_eval();
+        for round in 0..8 {
+            let mut cx = fidget_core::Context::new();
+            let ax = [cx.x(), cx.y(), cx.z()];
+            let perm = *rng.pick(&[[0usize, 1, 2], [1, 0, 2], [2, 1, 0], [0, 2, 1], [1, 2, 0], [2, 0, 1]]);
+            // first encounter order = perm; asymmetric in the axes
+            let t0 = cx.mul(ax[perm[0]], 2.0).unwrap();
+            let t1 = cx.sub(t0, ax[perm[1]]).unwrap();
+            let t2 = cx.mul(ax[perm[2]], 0.25).unwrap();
+            let root = if rng.chance(0.5) { cx.add(t1, t2).unwrap() } else { t1 };
+            let shape = Shape::<F>::new(&cx, root).unwrap();
+            let q = [rng.uniform(-2.0, 2.0) as f32, rng.uniform(-2.0, 2.0) as f32, rng.uniform(-2.0, 2.0) as f32];
+            step_log.push(format!("evaluators outliving shapes: round {round}, axis order {perm:?}"));
+            let pt = shape.point_tape(Default::default());
+            let got = s_pe.eval(&pt, q[0], q[1], q[2]).map(|r| r.0).map_err(|e| viol("eval_error", e.to_string(), &step_log))?;
+            let want = Shape::<F>::new_point_eval().eval(&pt, q[0], q[1], q[2]).map(|r| r.0).map_err(|e| viol("eval_error", e.to_string(), &step_log))?;
+            if !same_bits(got, want) {
+                return Err(viol("outlived_shape_point", format!("a shape-level point evaluator that had evaluated other (since dropped) shapes returns {got:?}, a fresh one {want:?}"), &step_log));
+            }
+            let it = shape.interval_tape(Default::default());
+            let bx = [Interval::new(q[0] - 0.5, q[0] + 0.25), Interval::new(q[1] - 0.125, q[1] + 1.0), Interval::new(q[2], q[2] + 0.5)];
+            let goti = s_ie.eval(&it, bx[0], bx[1], bx[2]).map(|r| r.0).map_err(|e| viol("eval_error", e.to_string(), &step_log))?;
+            let wanti = Shape::<F>::new_interval_eval().eval(&it, bx[0], bx[1], bx[2]).map(|r| r.0).map_err(|e| viol("eval_error", e.to_string(), &step_log))?;
+            if !(same_bits(goti.lower(), wanti.lower()) && same_bits(goti.upper(), wanti.upper())) {
+                return Err(viol("outlived_shape_interval", format!("a shape-level interval evaluator that had evaluated other (since dropped) shapes returns {goti:?}, a fresh one {wanti:?}"), &step_log));
+            }
+            st.inc("steps_evaluator_outlives_shape");
+            // pt, it, shape and cx are dropped here
+        }
+    }
     st.inc("histories");
     Ok(())
 }
